@@ -42,14 +42,16 @@ TRUSTED_EXTRA = ["C12: forbes/jaccard values are recomputed in the harness from 
 MANIFEST = {
     "text": "Lean 4 theorems about explicit pull-step models of iter_chromosomes, SynchedStream, left_join and of the consumers "
             "(pull-all loop; zip with its left-to-right pull order and stop-at-shortest): for every genome order, ignored set and "
-            "sequence of groups with distinct names, pull-all evaluation of each of the three generators EQUALS the specification "
+            "sequence of groups (no assumption on the data names since repair f720bbc), pull-all evaluation of each of the three "
+            "generators EQUALS the specification "
             "(completes iff every non-ignored name is in the order and the names come in a compatible order; then output i is the "
             "group named order[i] or empty; otherwise an error) — sync_complete, synched_complete, left_join_complete; with the "
             "one-item look-ahead of the repair the same holds for ANY consumer that obtains all |order| items of iter_chromosomes / "
             "SynchedStream whether or not it ever pulls again (…_any_consumer), and for the modelled zip consumer itself: if zip over "
             "any list of iterators completes with one row per contig then every iter_chromosomes / SynchedStream column, in any "
             "operand position, is its stream's specification (zip_columns_complete: streamable, forbes, jaccard, the computation "
-            "graph); every chunking of the entries gives the same group sequence (groups_chunking); the ragged change-point detection marks "
+            "graph); every chunking of the entries — empty chunks anywhere — gives the same group sequence (groups_chunking, "
+            "sync_chunking_independent); 'compatible order' is List.Sublist (compatible_iff_sublist); the ragged change-point detection marks "
             "a boundary exactly when two adjacent names differ, prefix pairs included (ragged_change_iff, with the witness for the "
             "rule without the length comparison). The shipped rules are refuted in "
             "Lean with witnesses: a mis-ordered stream that is not the first argument of zip (or a single data stream behind the "
